@@ -82,7 +82,7 @@ def es_worker(args):
                            maxdepth=opts.get('maxdepth', 5), qtimeout=opts.get('qtimeout', 3000),
                            budget_s=opts.get('budget_s', 1e9),
                            degrees=range(-6, 7) if opts.get('scale', True) else [0])
-        rels = sw.run()
+        rels = sw.direct() if opts.get('direct') else sw.run()
         out['stats'] = sw.stats
         out['samples'] = sw.samples
         out['meta'] = dag.meta
@@ -381,6 +381,11 @@ def jobs_C10(tier, seed):
     d100 = {'kind': 'dippr', 'src': src((I + 'poling2000.json', ['ethanol', 'diethyl ether']))}
     for n, s in (('joback', jb), ('dippr100', d100)):
         jobs.append(('ideal_mix/' + n, {'job': 'ideal_mix', 'model': s, 'x': state(2, 350.0, 1000.0, seed)}, {'budget_s': 300}))
+    # C10-b: heat capacity from the second temperature derivative of A_ig (Dual2<Sym>) vs the published correlation
+    # coefficients chosen so that the library's f64 preprocessing c/k, c/(k+1) is exact (otherwise the identity only holds to roundoff)
+    d100s = {'kind': 'dippr', 'syn': [[100, 27000.0, 36.0, 0.375, -0.00018310546875], [100, 33000.0, -12.0, 0.75, 0.000732421875]]}
+    jobs.append(('ideal_cp/joback', {'job': 'ideal_cp', 'model': jb, 'rgas': 6.022140857 * 1.38064852, 'x': state(2, 350.0, 1000.0, seed)}, {'direct': True, 'scale': False}))
+    jobs.append(('ideal_cp/dippr100', {'job': 'ideal_cp', 'model': d100s, 'rgas': 8.31446261815324 * 1000.0, 'skip': 1, 'x': state(2, 350.0, 1000.0, seed)}, {'direct': True, 'scale': False}))
     if tier == 'thorough':
         d107 = {'kind': 'dippr', 'syn': [[107, 33363.0, 26790.0, 2610.5, 8896.0, 1169.0], [107, 29000.0, 21000.0, 1500.0, 9000.0, 700.0]]}
         d127 = {'kind': 'dippr', 'syn': [[127, 33258.0, 36199.0, 1205.0, 15176.0, 3277.0, 7002.0, 9876.0], [127, 30000.0, 30000.0, 1000.0, 12000.0, 3000.0, 5000.0, 8000.0]]}
